@@ -20,6 +20,7 @@ StableSort(a) == /\ a \in live
 GNext == /\ Len(hist) < MaxOps /\ UNCHANGED keep
          /\ \/ \E a \in Slots, n \in 0..2 : New(a, n) /\ hist' = Append(hist, Rec("new", a, 0, 0, 0, n, 0))
             \/ \E a \in Slots, it \in Items, i \in 1..MaxBins : Add(a, it, i) /\ hist' = Append(hist, Rec("add", a, 0, i, 0, 0, it))
+            \/ \E a \in Slots, i \in 1..MaxBins : AddBad(a, i) /\ hist' = Append(hist, Rec("addbad", a, 0, i, 0, 0, 0))
             \/ \E a, b \in Slots : Copy(a, b) /\ hist' = Append(hist, Rec("copy", a, b, 0, 0, 0, 0))
             \/ \E a \in Slots : NB(a) >= 2 /\ StableSort(a) /\ hist' = Append(hist, Rec("sort", a, 0, 0, 0, 0, 0))
             \/ \E a \in Slots, n \in 0..2 : AddEmpty(a, n) /\ hist' = Append(hist, Rec("addempty", a, 0, 0, 0, n, 0))
